@@ -345,6 +345,41 @@ def probe_fault_servers(ctx):
     return out
 
 
+PROBE_CONN_FAULTS = {
+    'silent': dict(silent=True),
+    'close-at-once': dict(close_on_connect=True),
+    'banner-then-close': dict(kexinit_payload=None, close_after_send=True),
+    'banner-then-stall': dict(kexinit_payload=None),
+    'kexinit-bad-block': dict(raw_after_banner=b'\x00\x00\x00\x0d\x04' + b'\x14' + b'\x00' * 29),
+    'kexinit-bad-length': dict(raw_after_banner=b'\x00\x00\x00\x04\xff' + b'\x14' + b'\x00' * 29),
+    'kexinit-truncated': None,      # filled in below (needs the payload)
+    'kexinit-wrong-type': None,
+    'kexinit-garbage': dict(raw_after_banner=bytes(range(1, 90))),
+    'not-ssh-banner': dict(banner=b'HTTP/1.1 400 Bad Request', kexinit_payload=None),
+}
+
+
+def run_probe_connection_fault(fault, k, extra=()):
+    kexl = ['curve25519-sha256', 'diffie-hellman-group-exchange-sha256', 'diffie-hellman-group-exchange-sha1']
+    payload = fn.kexinit(kexl, ['rsa-sha2-512', 'ssh-ed25519'], ['aes256-ctr'], ['hmac-sha2-256-etm@openssh.com'])
+    good = fn.Server(banner=b'SSH-2.0-OpenSSH_8.0', kexinit_payload=payload, hostkeys={'rsa-sha2-512': fn.rsa_blob(3072), 'ssh-ed25519': fn.ed25519_blob()}, gex=lambda a, b, c: 3072 if c >= 3072 else None)
+    kw = PROBE_CONN_FAULTS[fault]
+    if fault == 'kexinit-truncated':
+        kw = dict(raw_after_banner=fn.pkt(payload[:40]))
+    elif fault == 'kexinit-wrong-type':
+        kw = dict(raw_after_banner=fn.pkt(b'\x15' + payload[1:]))
+    bad = fn.Server(**dict(dict(banner=b'SSH-2.0-OpenSSH_8.0', kexinit_payload=payload), **kw))
+    srv = fn.StagedServer([good] * k + [bad] + [good] * 40)
+    net = fn.FakeNet({'10.2.2.3': srv})
+    code, out = fn.run_main(['-n', '--skip-rate-test'] + list(extra) + ['10.2.2.3'], net)
+    return code, out, len(net.connects)
+
+
+def probe_connection_faults(ctx):
+    ks = (1, 2, 3, 5) if ctx.tier != 'thorough' else tuple(range(1, 12))
+    return [(f, k, e) for f in PROBE_CONN_FAULTS for k in ks for e in ([], ['-j'])]
+
+
 def run(ctx):
     r = ctx.rng
     cov = Coverage('one evaluation = one audit of a scripted misbehaving peer on the real code; non-trivial = distinct scripts that deliver at least one byte; event scripts: truncation at every (quick: every 3rd) byte offset of '
@@ -412,6 +447,15 @@ def run(ctx):
                 fail('more_stalls_than_connections', inp, {'stalls': net.timeouts, 'connections': len(net.connects)}, 'stalls waited for <= 2 x connections made')
             if net.unclosed():
                 fail('connection_left_open', inp, len(net.unclosed()), 0)
+    # faults in the opening stages (banner, KEXINIT) of a probe connection: the k-th connection of the audit misbehaves, every other one is healthy
+    for fault, k, extra in probe_connection_faults(ctx):
+        code, out, nconn = run_probe_connection_fault(fault, k, extra)
+        cov.add(('probe-conn', fault, k, tuple(extra)), True, tags=['probe-connection-fault', fault])
+        inp = {'probe_connection_fault': fault, 'connection': k, 'args': extra}
+        if 'Traceback' in out or code not in (0, 2, 3):
+            fail('probe_misbehaviour_lost_report', inp, {'exit': code, 'connections': nconn, 'stdout': out[-300:]}, 'status 0/2/3 and the complete report')
+        elif not extra and not all(any(l.startswith(p) for l in out.split('\n')) for p in ('(kex) ', '(key) ', '(enc) ', '(mac) ')):
+            fail('probe_misbehaviour_lost_report', inp, {'exit': code, 'stdout': out[:300]}, 'all four algorithm sections')
     fn.reset_dbs()
     return {'failures': failures, 'mismatches': mismatches, 'coverage': cov, 'corr_cases': len(model),
             'assumptions': ['PARTIAL: a stall (timeout or socket error) is one event; real time per stall is the configured timeout', 'sockets are blocking (EAGAIN retry path unreachable)',
@@ -422,6 +466,12 @@ def run(ctx):
 def replay(obj):
     f = obj.get('failure', obj)
     inp = f['input']
+    if 'probe_connection_fault' in inp:
+        code, out, nconn = run_probe_connection_fault(inp['probe_connection_fault'], inp['connection'], inp['args'])
+        print('exit', code, 'connections', nconn)
+        print(out[-500:])
+        bad = 'Traceback' in out or code not in (0, 2, 3) or (not inp['args'] and not all(any(l.startswith(p) for l in out.split('\n')) for p in ('(kex) ', '(key) ', '(enc) ', '(mac) ')))
+        return 1 if bad else 0
     if inp.get('versions_differ'):
         from props.C19 import run_versions_differ
         code, out, log = run_versions_differ(inp['args'], inp['second_connection'])
